@@ -37,6 +37,7 @@ type vWorld struct {
 	choice          int
 	depthCfg        int
 	badLines        map[*tree.Statement]bool // line statements whose markup is faulty (BADMARKUP)
+	hostBuiltins    bool                     // the host registers commands of its own under the names stop and wait (HOSTSTOP)
 }
 
 func (w *vWorld) newLineStmt(prefix string) *tree.Statement {
@@ -233,6 +234,9 @@ func (w *vWorld) vStatement(tag string, budget int, allowBad bool) *tree.Stateme
 			cs.CommandStatement.Elements = append(cs.CommandStatement.Elements, &tree.CommandStatementElement{Expression: vVarExpr("nosuchvar")})
 			return cs
 		}
+		if w.hostBuiltins && vChoose(tag+".cmd.wait", 2) == 1 {
+			return vCommandStmt(variable.NewString("wait"), variable.NewNumber(0)) // reaches the host's own wait
+		}
 		switch vChoose(tag+".cmd", ncmd) {
 		case 7, 8:
 			// arguments whose values change from one execution to the next: a function call and a variable
@@ -325,12 +329,19 @@ func (w *vWorld) registerHost(dr *DialogueRunner) {
 		w.pending = ch
 		return ch
 	})
-	if vParam("HOSTSTOP", 0) != 0 && vChoose("host.registers.stop", 2) == 1 {
+	if w.hostBuiltins {
 		// a host that registers a command of its own under the name "stop": <<stop>> stays the dialogue's stop, is
 		// never dispatched (the handler would log, and its channel never completes) and ends the dialogue for good
 		dr.AddCommand("stop", func(args []*variable.Value) <-chan error {
 			w.handlers = append(w.handlers, vHandlerCall{"stop", args})
 			return make(chan error, 1)
+		})
+		// ... and one under the name "wait": it replaces the built-in of that name, as any registration replaces an earlier one
+		dr.AddCommand("wait", func(args []*variable.Value) <-chan error {
+			w.handlers = append(w.handlers, vHandlerCall{"wait", args})
+			ch := make(chan error, 1)
+			ch <- nil
+			return ch
 		})
 	}
 }
@@ -339,6 +350,7 @@ func (w *vWorld) registerHost(dr *DialogueRunner) {
 // allowBad includes script-level faults (ill-typed conditions, unknown names, malformed statements).
 func vNewWorld(budget int, allowBad bool) *vWorld {
 	w := &vWorld{lines: map[*tree.Statement]string{}}
+	w.hostBuiltins = vParam("HOSTSTOP", 0) != 0 && vChoose("host.registers.stop", 2) == 1
 	maxDepth := vParam("DEPTH", 2)
 	maxQ := vParam("QLEN", 2)
 
@@ -737,6 +749,8 @@ func (w *vWorld) vSpecNext(env *vSpecEnv, K []*tree.Statement, waiting *tree.Sho
 				out.end = true
 				out.K = K
 				return out
+			case "wait": // only generated when the host registered its own (which completes at once)
+				out.nCmd++
 			case "cmd":
 				if len(el) == 3 && el[2].Expression.VariableID != nil {
 					out.fail = true // its argument does not evaluate: the handler does not run
